@@ -35,6 +35,9 @@ func propC11(c *Ctx, r *Report) {
 	r.Clauses = append(r.Clauses, innerFirstClause+" - otherwise const_assert and case selectors are judged against the shadowed module-scope constant")
 	c.runInnerFirst(r, "lookup.innerfirst", "wgsl/internal/lower", nil)
 	r.floor("lookup.innerfirst", 2)
+	r.Clauses = append(r.Clauses, leaveCleanClause)
+	c.runLeaveClean(r, "scope.leaveclean", lowerResetScopes[0])
+	r.floor("scope.leaveclean", 1)
 	r.Clauses = append(r.Clauses, nameDefaultClause)
 	c.runNameSilentDefault(r, "name.silentdefault", "wgsl/internal/lower", nil)
 	r.floor("name.silentdefault", 5)
@@ -63,3 +66,5 @@ func propC11(c *Ctx, r *Report) {
 var droppedErrExceptions = map[string]string{}
 
 const nameDefaultClause = "unknown names are refused (E91): a lowerer function that translates a name written in the source into an IR enumerant (table lookup or switch over the spelling) and whose fall-through answer is an ordinary enumerant reports the unknown name through addError - a misspelt builtin value, address space, access mode, texel format or sampled type is an undeclared identifier, not the default"
+
+const leaveCleanClause = "function scope ends with the function (E95): every name table of the lowerer that is cleared on entry to lowerFunction and that a function reachable from a module-scope handler (constants, const_assert, overrides, globals - run by the driver between functions) looks into is also cleared when lowerFunction is left - a module-scope const_assert after `fn f() { let N = 5; }` must see the module's N"
